@@ -119,13 +119,14 @@ def check(case, ctx):
                 bad("manual", "next() raised %r at step %d" % (e, step))
                 break
             if not t.is_computed():
-                try:
-                    next(gen)
-                    bad("guard", "advancing before the previously returned task is computed did not raise RuntimeError")
-                except RuntimeError:
-                    pass
-                except BaseException as e:
-                    bad("guard", "advancing before the previous task is computed raised %r instead of RuntimeError" % (e,))
+                for attempt in (1, 2):       # the guard must hold for every premature attempt, not only the first
+                    try:
+                        next(gen)
+                        bad("guard", "advancing before the previously returned task is computed did not raise RuntimeError (attempt %d)" % attempt)
+                    except RuntimeError:
+                        pass
+                    except BaseException as e:
+                        bad("guard", "advancing before the previous task is computed raised %r instead of RuntimeError" % (e,))
             v = t.value()
             if v is not END_OF_GENERATOR:
                 out.append(v)
